@@ -62,6 +62,7 @@ MUTANTS = [
  ('benign-indent-disjuncts-swapped', 'indent', 'regexp.rs', "(plain_line == \"$\" || plain_line.starts_with(')'))", "(plain_line.starts_with(')') || plain_line == \"$\")", 'pass', ''),
  ('from-file-accepts-empty-file', 'builder', 'builder.rs', '                if test_cases.is_empty() {\n                    panic!("{}", MISSING_TEST_CASES_MESSAGE);\n                }\n', '', 'fail', 'from_file.no_test_cases_is_the_documented_panic'),
  ('from-file-drops-first-line', 'builder', 'builder.rs', '                Self {\n                    test_cases,\n                    config: RegExpConfig::new(),', '                Self {\n                    test_cases: test_cases[1..].to_vec(),\n                    config: RegExpConfig::new(),', 'undecided-or-fail', 'from_file'),
+ ('len-concatenation-drops-second', 'expr', 'expression.rs', 'Expression::Concatenation(expr1, expr2, _, _, _) => expr1.len() + expr2.len(),', 'Expression::Concatenation(expr1, expr2, _, _, _) => expr1.len(),', 'fail', 'len.matched_length_composed'),
  ('add-new-state-edge-reversed', 'trie', 'dfa.rs', '.add_edge(current_state, next_state, edge_label.clone());', '.add_edge(next_state, current_state, edge_label.clone());', 'fail', 'add_new_state.'),
  ('insert-marks-start', 'trie', 'dfa.rs', 'self.final_state_indices.insert(current_state.index());\n    }', 'self.final_state_indices.insert(self.initial_state.index());\n    }', 'fail', 'insert.'),
  ('pipeline-sort-before-lowercase', 'regexp', 'regexp.rs', '        if config.is_case_insensitive_matching {\n            Self::convert_for_case_insensitive_matching(test_cases);\n        }\n        Self::sort(test_cases);', '        Self::sort(test_cases);\n        if config.is_case_insensitive_matching {\n            Self::convert_for_case_insensitive_matching(test_cases);\n        }', 'fail', 'pipeline.input_prepared'),
